@@ -9,7 +9,9 @@ Definition std_text (k : tkind) : str :=
   match k with
   | COLON => lit ":" | STAR => lit "*" | HASH => lit "#" | COMMA => lit "," | LBRACKET => lit "[" | RPRACKET => lit "]"
   | LPAREN => lit "(" | RPAREN => lit ")" | WHITESPACE => lit " " | OR => lit "or" | AND => lit "and"
-  | BUT_NOT => lit "but not" | FROM => lit "from" | KEYWORD_WITH => lit "with" | NEWLINE => [10] | _ => []
+  | BUT_NOT => lit "but not" | FROM => lit "from" | KEYWORD_WITH => lit "with" | NEWLINE => [10]
+  | DEFINE => lit "define" | TYPE => lit "type" | RELATIONS => lit "relations" | MODEL => lit "model" | SCHEMA => lit "schema"
+  | EXTEND => lit "extend" | MODULE => lit "module" | _ => []
   end.
 
 (* kind and text of a canonical token: punctuation and keywords carry no text there *)
